@@ -61,6 +61,71 @@ theorem c12_read_terminates (fixed : Bool) (ctx : Ctx) (bs : Bytes) :
     (readAll fixed ctx bs).2.1 ≠ .fuel :=
   readAllF_fuel fixed ctx _ _ _ (by omega)
 
+/-! ### perf-cpuN.dat (utils/perf.c `read_perf_event`, the reader AS CODED: `fixed = false`) -/
+
+/-- C12 for the per-cpu perf files: for every sequence of well-formed perf records (context switches,
+    task-new / task-exit with their trailing `sample_id`, comm records of both name lengths, records of
+    any unknown type and length) and EVERY cut position `k`, the reader as coded delivers exactly the
+    events of the records that are completely present in the first `k` bytes and ends with a clean end
+    of file: a record whose trailing `sample_id` (or any other part) is missing is not delivered. -/
+theorem c12_perf_cut_equals_whole_prefix (rs : List PRec) (hwf : ∀ r ∈ rs, PWF r) (k : Nat) :
+    readPerfAll false ((pEncodeAll rs).take k) =
+      ((rs.take (pWholeBefore rs k)).filterMap pEvOf, .eof) := by
+  unfold readPerfAll
+  apply readPerfAllF_cut rs hwf
+  have := pWhole_le rs k
+  omega
+
+/-- whatever a command computes from the events of a per-cpu file: on a cut file it is what it computes
+    on the copy that ends at the last whole perf record -/
+theorem c12_perf_commands_prefix {α : Type} (cmd : List PEv × PStatus → α) (rs : List PRec)
+    (hwf : ∀ r ∈ rs, PWF r) (k : Nat) :
+    cmd (readPerfAll false ((pEncodeAll rs).take k)) =
+      cmd (readPerfAll false (pEncodeAll (rs.take (pWholeBefore rs k)))) := by
+  have hwf' : ∀ r ∈ rs.take (pWholeBefore rs k), PWF r :=
+    fun r hr => hwf r (List.mem_of_mem_take hr)
+  have h1 := c12_perf_cut_equals_whole_prefix rs hwf k
+  have h2 := c12_perf_cut_equals_whole_prefix _ hwf' (pEncodeAll (rs.take (pWholeBefore rs k))).length
+  rw [List.take_length, pWhole_full, List.take_length] at h2
+  rw [h1, h2]
+
+/-- memory safety of the perf reader.  As coded, on every cut of every well-formed file: the body reads
+    stay inside the 40-byte union and no size field wraps around (reading stops with `eof`).  On EVERY
+    byte string this holds for the reader with proposed_fixes/C12-PERF-LEN.diff (`fixed = true`); the
+    reader as coded trusts the size field of the file (`c12_prefix_perf_len_witness`). -/
+theorem c12_perf_read_in_bounds :
+    (∀ (rs : List PRec), (∀ r ∈ rs, PWF r) → ∀ k,
+      (readPerfAll false ((pEncodeAll rs).take k)).2 = .eof) ∧
+    (∀ bs : Bytes, (readPerfAll true bs).2 ≠ .oob ∧ (readPerfAll true bs).2 ≠ .badSize) :=
+  ⟨fun rs hwf k => by rw [c12_perf_cut_equals_whole_prefix rs hwf k],
+   fun bs => readPerfAllF_fixed_safe _ bs⟩
+
+/-- non-vacuity: a file with a sched-out, an unknown record and a task-exit; cut 1 byte before
+    its end the task-exit is not delivered -/
+def perfW : List PRec :=
+  [⟨14, 0x2000, leBytes 4 101 ++ leBytes 4 101 ++ leBytes 8 2120⟩,
+   ⟨9, 0, zeros 8⟩,
+   ⟨4, 0, leBytes 4 101 ++ leBytes 4 1 ++ leBytes 4 101 ++ leBytes 4 101 ++ leBytes 8 2950 ++
+      leBytes 4 101 ++ leBytes 4 101 ++ leBytes 8 2950⟩]
+
+set_option maxRecDepth 8000 in
+example : (∀ r ∈ perfW, PWF r) ∧ (pEncodeAll perfW).length = 88 ∧
+    (readPerfAll false (pEncodeAll perfW)).1.map (·.time) = [2120, 2950] ∧
+    (readPerfAll false ((pEncodeAll perfW).take 87)).1.map (·.time) = [2120] ∧
+    pWholeBefore perfW 87 = 2 := by
+  refine ⟨?_, by decide, by decide, by decide, by decide⟩
+  intro r hr
+  simp only [perfW, List.mem_cons, List.not_mem_nil, or_false] at hr
+  rcases hr with rfl | rfl | rfl <;> simp [PWF, zeros]
+
+set_option maxRecDepth 8000 in
+/-- the reader as coded takes the length of the body read from the file: a context-switch record whose
+    size field says 56 with 48 bytes behind the header stores 48 bytes in the 40-byte union -/
+theorem c12_prefix_perf_len_witness :
+    (readPerfAll false (leBytes 4 14 ++ leBytes 2 0 ++ leBytes 2 56 ++ zeros 48)).2 = .oob ∧
+    (readPerfAll true (leBytes 4 14 ++ leBytes 2 0 ++ leBytes 2 56 ++ zeros 48)).2 = .eof ∧
+    (readPerfAll false (zeros 8)).2 = .badSize := by decide
+
 /-! ### non-vacuity and the findings as theorems about the code as found -/
 
 /-- `foo(int, char *)` returning int, `bar(char *)` returning a string -/
